@@ -136,6 +136,8 @@ func errKnownNonNil(v ssa.Value, at ssa.Instruction) bool {
 }
 
 func runC10(c *Ctx) {
+	c.Rule("O10.7", "the tag reported is the tag of this entry: an ammo entry is decoded into storage made for it, so a field the entry does not set (tag, headers, host) is empty and not the previous entry's (the rule of O7.6, shared)")
+	c.Borrow("C07", runC07, map[string]string{"O7.6": "O10.7"})
 	c.Rule("O10.1", "exactly one sample per request on every path: every exit of each gun's shoot function has reported exactly one sample for the request (HTTP: BaseGun.Shoot; gRPC: Gun.shoot; scenarios: per step, shootStep reports once itself or returns an error that the loop turns into exactly one failed sample); named exception: the optional Connect hook exit")
 	c.Rule("O10.2", "gRPC status table: ConvertGrpcStatus maps every gRPC code exactly as the table in docs/eng/grpc-generator.md says, and every code not in the table (and the default) to the documented 'unknown' value")
 	c.Rule("O10.3", "proto code provenance: SetProtoCode receives the received status (res.StatusCode / ConvertGrpcStatus(grpcErr)); once a response was received every path to the exit sets it exactly from that response")
